@@ -162,11 +162,11 @@ func judgeLog(lines []string) []verdict {
 	}
 	var vs []verdict
 	// --- log_unique, log_will
-	idOf := map[string]string{}     // connection -> client id (hex)
-	failed := map[string]bool{}     // client id -> some Setup for it failed
-	termCall := map[string]bool{}   // connection -> entered Terminate (so far)
-	willDone := map[string]bool{}   // connection -> will publication returned (so far)
-	willPub := map[string]int{}     // connection -> will publications started
+	idOf := map[string]string{}       // connection -> client id (hex)
+	failed := map[string]bool{}       // client id -> some Setup for it failed
+	termCall := map[string]bool{}     // connection -> entered Terminate (so far)
+	willDone := map[string]bool{}     // connection -> will publication returned (so far)
+	willPub := map[string]int{}       // connection -> will publications started
 	okSetups := map[string][]string{} // client id -> connections set up so far, in order
 	for _, e := range evs {
 		if e.kind == "SetupCall" && len(e.args) >= 1 {
